@@ -512,6 +512,9 @@ func scWriters(firstUse bool) scenarioFn {
 				if r.IntN(5) == 0 {
 					n = r.IntN(40)
 				}
+				if o.stack == "tlcp" && r.IntN(3) == 0 {
+					n = 17000 + r.IntN(40000) // (the frame header has a 16-bit length) more than one record of the stream stack: the Write must still be whole on the wire
+				}
 				mine = append(mine, payload(tag, n))
 				out.Tags = append(out.Tags, [2]int{tag, n})
 				total += hdrLen + n
